@@ -5,4 +5,6 @@ INVARIANT EditsIrrelevant
 INVARIANT CanonicalShape
 INVARIANT Idempotent
 INVARIANT GreyStable
+INVARIANT RoundTripSatisfiable
+INVARIANT DeviationsAreLocal
 CHECK_DEADLOCK FALSE
